@@ -198,6 +198,9 @@ void point(const char* site, const void* obj = nullptr);
 void gate(const char* site, std::function<bool()> pred);
 // Only sites accepted by the filter are schedule points (others pass through).  nullptr = all.
 void setSiteFilter(bool (*filter)(const char* site));
+// Library NOTE hooks whose site starts with "Mem" (MemAlloc / MemFree of the small-buffer interface) are never
+// part of a controlled trace; a driver that tracks the library's own blocks installs a sink for them.
+void setMemSink(void (*sink)(const char* site, const void* obj, long long a, long long b));
 // Snapshot helpers for projections / gate predicates (call only from the controller context).
 struct WaiterInfo {
   std::string name;
